@@ -61,7 +61,7 @@ ASSUMPTIONS = [
 ]
 EXHAUSTIVE = {'quick': True, 'thorough': True}
 _ABS = {'wide': 2000, 'subnormal-float': 50, 'not-representable-float': 50, 'normalize-raises': 100, 'split-inside': 1000,
-        'wide:equal': 1000, 'wide:negation': 1000, 'wide:ulp': 1000, 'wide:same-e': 1000, 'wide:special': 1000}
+        'wide:equal': 1000, 'wide:negation': 1000, 'wide:ulp': 1000, 'wide:same-e': 1000, 'wide:special': 1000, 'wide:near-frac': 500}
 FLOORS = {
     'quick': dict(_ABS, **{'mixed-type': 0.2, 'redundant': 0.2, 'special': 0.1, 'nan': 0.005, 'inf': 0.01, 'zero-result': 0.005,
                            'equal-diff-encoding': 0.002, 'cancel': 0.0005, 'nondyadic': 0.01, 'unordered': 0.002}),
@@ -1186,7 +1186,7 @@ def run_hyp(res: Result, idx, tier, seed):
     @st.composite
     def pair_case(draw):
         s, c, e = draw(number())
-        rel = draw(st.sampled_from(['indep', 'indep', 'equal', 'negation', 'ulp', 'same-e', 'special', 'nondyadic', 'scaled']))
+        rel = draw(st.sampled_from(['indep', 'indep', 'equal', 'negation', 'ulp', 'same-e', 'special', 'nondyadic', 'scaled', 'near-frac']))
         if rel == 'indep':
             b = draw(number())
         elif rel == 'equal':
@@ -1213,6 +1213,27 @@ def run_hyp(res: Result, idx, tier, seed):
             b = (draw(st.booleans()), c, e + k)
         elif rel == 'special':
             b = draw(st.sampled_from(['+inf', '-inf', 'nan', '+0', '-0']))
+        elif rel == 'near-frac':
+            # a non-dyadic rational q (possibly far outside the double range) against a dyadic value within a
+            # few units of q's P-th digit, P from below to far above 53: the value may lie strictly between q
+            # and q's nearest double, where any comparison routed through a double gives the wrong order
+            fn = draw(st.integers(1, 1 << 70))
+            fd = draw(st.sampled_from([3, 5, 7, 9, 11, 13, 10 ** 6 + 3]))
+            if fn % fd == 0:
+                fn += 1
+            sh = draw(st.sampled_from([0, 0, 1, -1, 40, -40, 900, -1100, -2200, 1500]))
+            neg = draw(st.booleans())
+            num, dnm = (fn << sh, fd) if sh >= 0 else (fn, fd << -sh)
+            q = Fraction(num, dnm)
+            prec = draw(st.sampled_from([24, 52, 53, 54, 60, 64, 80, 113, 130]))
+            eq = num.bit_length() - dnm.bit_length()
+            kk = prec - eq
+            scaled = q * (1 << kk) if kk >= 0 else q / (1 << -kk)
+            cc = scaled.numerator // scaled.denominator + draw(st.integers(-2, 3))
+            if cc <= 0:
+                cc = 1
+            s, c, e = neg, cc, -kk
+            b = ('frac', -num if neg else num, dnm)
         else:
             b = ('frac', draw(st.integers(-(1 << 70), 1 << 70)), draw(st.sampled_from([3, 5, 6, 7, 12, 3 << 40, 10 ** 6])))
         ca = draw(st.sampled_from(['Float', 'RealFloat', 'Float', 'RealFloat', 'native']))
